@@ -5,6 +5,7 @@ Ll(l) == [t |-> "l", v |-> 0, l |-> l]
 \* numbers double as CIDs and as widths; lists of one and two glyph widths
 ElemsW == {Nn(1), Nn(2), Nn(4), Ll(<<7>>), Ll(<<8, 9>>)}
 \* vertical: a list describes glyphs by triples; the four-element list has an incomplete second triple
-ElemsW2 == {Nn(1), Nn(2), Nn(4), Ll(<<7, 8, 9>>), Ll(<<5, 6, 7, 8>>), Ll(<<3, 5, 6, 7, 8, 9>>)}
+\* (with zero components: a position vector x of 0, a vertical displacement of 0, a position vector y of 0)
+ElemsW2 == {Nn(1), Nn(2), Nn(4), Ll(<<7, 0, 9>>), Ll(<<5, 6, 7, 8>>), Ll(<<0, 5, 6, 7, 8, 0>>)}
 MCCids == 0..7
 ====
